@@ -199,6 +199,8 @@ class Ctx:
             m = re.match(r"THEOREM (\S+) (\S+) AXIOMS \[(.*)\]", line)
             if not m or not m.group(2).startswith(m.group(1) + "."):
                 continue  # (auto-generated equation lemmas of imported definitions are not obligations)
+            if re.search(r"\.(eq_\d+|eq_def|eq_unfold|congr_simp|sizeOf_spec|injEq|inj|induct|induct_unfolding|fun_cases|fun_cases_unfolding)$", m.group(2)):
+                continue  # equation / induction lemmas Lean generates for a `def` of the module: not obligations
             found += 1
             axs = [a.strip() for a in m.group(3).split(",") if a.strip()]
             bad = [a for a in axs if a not in ALLOWED_AXIOMS]
